@@ -20,7 +20,8 @@ def main():
         m = json.load(open(os.path.join(d, "meta.json")))
         name = os.path.basename(d)
         caught = m.get("caught_by", "")
-        star = " after " in caught or caught.startswith("after ")
+        # strengthened = the text says "bin/check Cxx after <what was added>" (or the entry says so explicitly)
+        star = bool(re.match(r"bin/check C\d\d after ", caught)) or bool(m.get("strengthened"))
         stars += star
         rows.append("| %s%s | %s | %s |" % (name, " ★" if star else "", cut(m.get("needs", ""), 170), cut(caught, 230)))
     p = os.path.join(VERIF, "DESIGN.md")
